@@ -79,7 +79,7 @@ class PGen(Gen):
             return ("tup", [go(0 if wide else d) for _ in range(n)])
         if k < 0.6:
             return ("lst", [go(0 if wide else d) for _ in range(n)])
-        return ("dic", {key: go(0 if wide else d) for key in r.sample(["a", "b", "c", "pt"] + [f"k{i}" for i in range(14)], n)})
+        return ("dic", {key: go(0 if wide else d) for key in r.sample(["a", "b", "c", "pt", "values", "items", "keys", "copy", "get", "update", "pop"] + [f"k{i}" for i in range(14)], n)})
 
 
 def has_pack(shape):
